@@ -1,10 +1,22 @@
-/- C17 — independence of hasher, collisions and addresses.
-   The model has no hasher, no hash index order and no addresses: every result is a function of the configuration and
-   the history by construction. The one place where the Rust code iterates a hash map for an observable purpose is
-   `Drop` (the order in which entries are released); `clone` iterates the recency list (after the repair). -/
-import Caches.Lemmas.RawLru
+/-
+  C17 — behaviour is independent of hasher, collisions and allocation addresses.
+
+  Two layers. (1) The list-level model (Layer A) has no hasher, no bucket order and no addresses: every result is a
+  function of the configuration and the history by construction; the composite caches are built from it, and the one
+  place the Rust code walks a hash map for an observable purpose is `Drop` (`drop_order_irrelevant`).
+  (2) The pointer-level model of RawLRU (`Model/PtrLru`, Layer B) *does* have the things the property names: a heap of
+  link cells, node addresses handed out by an allocator, and a hash index used only through get / insert / remove — i.e.
+  an arbitrary function `κ → Option address`. `ptr_refines_history`: for every index function, every allocator (any
+  function of the state that returns an unused address) and every history, the pointer-level cache returns exactly
+  what the list-level cache returns and ends in a state representing the list-level state. Hence results, eviction
+  choices and order do not depend on the hasher, on collisions, or on where nodes happen to be allocated.
+  On the real code the same statement is exercised by running every case under five `BuildHasher`s (incl. constant
+  zero) and three key kinds and requiring identical traces.
+-/
+import Caches.Lemmas.PtrRun
+set_option linter.unusedSectionVars false
 namespace C17
-open M M.RawLru
+open M M.RawLru M.Chain
 variable {κ ν : Type} [DecidableEq κ] [DecidableEq ν]
 
 /-- whatever order the index is drained in, dropping the cache releases the same objects (as a multiset) -/
@@ -15,4 +27,25 @@ theorem drop_order_irrelevant (c : RawLru κ ν) (order : AL κ ν) (h : order.P
 
 /-- the clone does not depend on anything but the list: it is the cache itself -/
 theorem clone_is_function_of_list (c : RawLru κ ν) (h : c.Inv) : c.cloneImpl = .ok c := clone_eq c h
+
+/-! ## pointer level: any index function, any allocator -/
+
+/-- two runs of the same history with different allocators and different (but equally valid) index functions and
+    payload placement end in the same abstract cache -/
+theorem allocator_and_index_irrelevant (alloc1 alloc2 : PLru κ ν → Nat) (h1 : Admissible alloc1) (h2 : Admissible alloc2)
+    (ops : List (POp κ ν)) (p1 p2 : PLru κ ν) (l1 l2 : List Nat) (r1 : Rep p1 l1) (r2 : Rep p2 l2)
+    (hsame : p1.abs l1 = p2.abs l2) :
+    ∃ l1' l2', Rep (ops.foldl (pstep alloc1) p1) l1' ∧ Rep (ops.foldl (pstep alloc2) p2) l2' ∧
+      (ops.foldl (pstep alloc1) p1).abs l1' = (ops.foldl (pstep alloc2) p2).abs l2' := by
+  obtain ⟨a1, c1, hr1, hs1, ha1⟩ := ptr_refines_history alloc1 h1 ops p1 l1 r1
+  obtain ⟨a2, c2, hr2, hs2, ha2⟩ := ptr_refines_history alloc2 h2 ops p2 l2 r2
+  rw [hsame, hs2] at hs1
+  injection hs1 with hs1
+  exact ⟨a1, a2, hr1, hr2, by rw [ha1, ha2, hs1]⟩
+
+/-- non-vacuity: an empty pointer-level cache satisfies `Rep`, and "one past the largest address in use" is admissible
+    there -/
+example : Rep ({ cap := 2, heap := fun x => if x = 0 then ⟨0, 1⟩ else ⟨0, 1⟩, ent := fun _ => (0, 0), idx := fun _ => none,
+                 head := 0, tail := 1, len := 0 } : PLru Nat Nat) [] :=
+  ⟨⟨by decide, by simp [Linked]⟩, rfl, by intro k n; simp, by simp⟩
 end C17
